@@ -27,7 +27,12 @@ RULE = ("scripts = agenda (<= 9 timed environment actions: byte arrivals incl. b
         "without a wake-up fd; fixed boundary enumeration + corpus (D14, D15, D16 histories) + seeded random. "
         "non-trivial = distinct scripts in which at least one request returned something or raised")
 ASSUMPTIONS = [
-    "atomicity of `queued_scheduled_events.sort` is CHECKED, not assumed: the simulation's SpyList lets a scheduled callback of "
+    "the verdict does not depend on private attributes of Input: the simulated Input is entered through the real __enter__ (fake "
+    "termios/tty/signal/os.pipe), SIGINT reaches the handler Input installed with signal.signal; internal queues are READ when they "
+    "exist in the expected shape (sharper, per-request conservation) and otherwise the ledger judges the returned values and drains "
+    "the Input at the end of the script; the model-state comparison is a representation-level tie (C08/insim-state), the "
+    "property-level tie (C08/insim) compares the returned values and the final clock",
+    "atomicity of `queued_scheduled_events.sort` is CHECKED (when the attribute is a replaceable plain list; noted otherwise), not assumed: the simulation's SpyList lets a scheduled callback of "
     "another thread (agenda kind K) run between two key calls whenever the sort key is Python-level code; a C-level key gives no "
     "preemption point, as under the GIL (the model's sort is atomic)",
     "PARTIAL BY NATURE: list.append/pop(0)/extend are atomic under the GIL - the model and the simulation preempt the main "
@@ -204,12 +209,56 @@ class _Nonblocking:
         ENV.nonblocking_depth -= 1
 
 
+class _Termios:
+    """enough of termios/tty for Input.__enter__/__exit__ on the fake stream (their real behaviour is C12's subject)"""
+    TCSANOW = 0
+    VSTOP, VSTART, VSUSP = 9, 8, 10
+    error = OSError
+
+    @staticmethod
+    def tcgetattr(stream):
+        return [0, 0, 0, 0, 0, 0, [b"\x00"] * 32]
+
+    @staticmethod
+    def tcsetattr(stream, when, attrs):
+        pass
+
+
+class _Tty:
+    @staticmethod
+    def setcbreak(stream, when=0):
+        pass
+
+
+class _Signal:
+    """the process' SIGINT disposition and wake-up fd, as far as Input touches them"""
+    SIGINT = real_signal.SIGINT
+    Signals = real_signal.Signals
+    SIG_DFL, SIG_IGN = real_signal.SIG_DFL, real_signal.SIG_IGN
+    default_int_handler = real_signal.default_int_handler
+
+    @staticmethod
+    def signal(signum, handler):
+        old, ENV.sig_handler = ENV.sig_handler, handler
+        return old
+
+    @staticmethod
+    def getsignal(signum):
+        return ENV.sig_handler
+
+    @staticmethod
+    def set_wakeup_fd(fd, warn_on_full_buffer=True):
+        old, ENV.wakeup_fd = ENV.wakeup_fd, fd
+        return old
+
+
 _saved = {}
 
 
 def install():
     for name, fake in (("select", _Select), ("time", _Time), ("os", _Os), ("Nonblocking", _Nonblocking),
-                       ("getpreferredencoding", lambda: ENC)):
+                       ("getpreferredencoding", lambda: ENC), ("termios", _Termios), ("tty", _Tty), ("signal", _Signal),
+                       ("is_main_thread", lambda: bool(ENV is not None and ENV.has_wake))):
         _saved.setdefault(name, getattr(cinput, name))
         setattr(cinput, name, fake)
 
@@ -240,16 +289,43 @@ class Env:
         self.log = []              # what the environment saw (for the oracle)
         self.next_sched_id = None
         self.bad = []              # protocol breaches of the code against the fake OS
-        self.inp = cinput.Input(in_stream=FakeStream(), keynames="bytes", paste_threshold=case["thr"], sigint_event=False)
-        if self.has_wake:
-            self.inp.wakeup_read_fd = WAKE_FD
+        self.total_bytes = sum(len(a[2]) // 2 for a in self.agenda if a[1] in "AU")   # bytes this script can ever deliver
+        self.sig_handler = real_signal.default_int_handler   # fake process state (see _Signal)
+        self.wakeup_fd = -1
+        self.entering = False
+        self.uninstrumented = set()    # internals the simulation could not instrument / read (noted, never a verdict)
+        self.inp = cinput.Input(in_stream=FakeStream(), keynames="bytes", paste_threshold=case["thr"], sigint_event=True)
+        # enter the context through the PUBLIC path (fake termios/tty/signal/os.pipe): in the "main thread" (has_wake) this
+        # creates the wake-up pipe and installs Input's SIGINT handler; otherwise neither (as in a non-main thread)
+        try:
+            self.entering = True
+            self.inp.__enter__()
+        except Exception as e:  # noqa: BLE001
+            self.uninstrumented.add("__enter__ under the simulated OS raised %s" % type(e).__name__)
+            if self.has_wake:
+                try:
+                    self.inp.wakeup_read_fd = WAKE_FD
+                    self.sig_handler = self.inp.sigint_handler
+                except Exception:  # noqa: BLE001
+                    pass
+        finally:
+            self.entering = False
         self.trig = [self.inp.event_trigger(lambda id, k=k: Ev(id, "q%d" % k)) for k in range(2)]
-        self.inp.queued_scheduled_events = SpyList()
+        # GIL model of list.sort: only if the scheduled events really are a plain list attribute that can be replaced
+        try:
+            if type(self.inp.queued_scheduled_events) is list and not self.inp.queued_scheduled_events:
+                self.inp.queued_scheduled_events = SpyList()
+            else:
+                self.uninstrumented.add("queued_scheduled_events is not a plain list: no sort to preempt")
+        except Exception:  # noqa: BLE001
+            self.uninstrumented.add("queued_scheduled_events is not a settable list: no sort to preempt")
         self.sched = self.inp.scheduled_event_trigger(lambda when: SEv(when, self.next_sched_id))
         self.ts = [self.inp.threadsafe_event_trigger(lambda id, p=p: Ev(id, "i%d" % p)) for p in range(case["npipes"])]
 
     # ---- fake OS ----
     def os_pipe(self):
+        if self.entering:                      # Input.__enter__: the signal wake-up pipe
+            return WAKE_FD, WAKE_FD + 1
         i = len(self.pipes)
         self.pipes.append(0)
         self.ts_calls.append([])
@@ -417,7 +493,8 @@ class Env:
             if self.has_wake:
                 self.wake.append(int(real_signal.SIGINT))
                 self.log.append(("sigint",))
-                self.inp.sigint_handler(real_signal.SIGINT, None)
+                if callable(self.sig_handler) and self.sig_handler is not real_signal.default_int_handler:
+                    self.sig_handler(real_signal.SIGINT, None)      # the handler Input installed with signal.signal
         elif kind == "G":
             if self.has_wake:
                 self.wake.append(item[2])
@@ -434,10 +511,36 @@ class Env:
 
     # ---- running ----
     def held(self):
+        """What the Input still holds, read from its attributes WHEN they exist in the expected shape (None otherwise:
+        the oracle then judges by draining, see Ledger.finish)."""
         inp = self.inp
-        return dict(u=b"".join(inp.unprocessed_bytes), o=bytes(self.osbuf), g=len(inp.sigints),
-                    q=list(inp.queued_events), i=list(inp.queued_interrupting_events),
-                    s=list(inp.queued_scheduled_events))
+
+        def rd(name, conv):
+            try:
+                return conv(getattr(inp, name))
+            except Exception:  # noqa: BLE001
+                self.uninstrumented.add("%s not readable" % name)
+                return None
+
+        def as_bytes(x):
+            if isinstance(x, (bytes, bytearray)):
+                return bytes(x)
+            return b"".join(bytes(b) if isinstance(b, (bytes, bytearray)) else bytes([b]) for b in x)
+
+        def pairs(x):
+            out = [(w, e) for w, e in x]
+            if not all(isinstance(e, SEv) for _, e in out):
+                raise TypeError
+            return out
+
+        def evs(x):
+            out = list(x)
+            if not all(isinstance(e, Ev) for e in out):
+                raise TypeError
+            return out
+        return dict(u=rd("unprocessed_bytes", as_bytes), o=bytes(self.osbuf), g=rd("sigints", len),
+                    q=rd("queued_events", evs), i=rd("queued_interrupting_events", evs),
+                    s=rd("queued_scheduled_events", pairs))
 
     def run(self, observer=None):
         """-> list of result tokens; observer(kind, ...) is called around every request"""
@@ -466,6 +569,12 @@ class Env:
                 if observer:
                     observer.end(self, "raised", e)
                 continue
+            if isinstance(r, cevents.PasteEvent) and sum(len(k) for k in r.events if isinstance(k, bytes)) > self.total_bytes:
+                # a paste holding more bytes than the whole script delivers: say so briefly instead of dragging megabytes along
+                out.append("p:!%d-bytes-of-%d" % (sum(len(k) for k in r.events if isinstance(k, bytes)), self.total_bytes))
+                if observer:
+                    observer.end(self, "overfull", r)
+                break
             out.append(enc_result(r))
             if observer:
                 observer.end(self, "returned", r)
@@ -475,10 +584,12 @@ class Env:
         h = self.held()
         nats = lambda l: ",".join(str(int(x)) for x in l) or "-"
         s = []
-        for when, e in h["s"]:
+        for when, e in (h["s"] or []):
             s += [when, e.id]
-        return "u=%s o=%s g=%d q=%s i=%s s=%s z=%d p=%s w=%s c=%d a=%d" % (
-            hx(h["u"]), hx(h["o"]), h["g"], nats(e.id for e in h["q"]), nats(e.id for e in h["i"]), nats(s),
+        opt = lambda v, f: "?" if v is None else f(v)
+        return "u=%s o=%s g=%s q=%s i=%s s=%s z=%d p=%s w=%s c=%d a=%d" % (
+            opt(h["u"], hx), hx(h["o"]), opt(h["g"], str), opt(h["q"], lambda q: nats(e.id for e in q)),
+            opt(h["i"], lambda q: nats(e.id for e in q)), "?" if h["s"] is None else nats(s),
             int(self.spurious), nats(self.pipes), nats(self.wake), int(self.clock), len(self.agenda))
 
 
@@ -541,6 +652,23 @@ def impl(c):
 # ------------------------------------------------------------------------------------------------
 # oracle: reference ledger, from the property text
 # ------------------------------------------------------------------------------------------------
+
+def is_shuffle_prefix(merged, a, b):
+    """merged is an order-preserving interleaving of a PREFIX of a and a PREFIX of b"""
+    front = {0}
+    for i, x in enumerate(merged):
+        nxt = set()
+        for j in front:
+            ia = i - j
+            if ia < len(a) and a[ia] == x:
+                nxt.add(j)
+            if j < len(b) and b[j] == x:
+                nxt.add(j + 1)
+        if not nxt:
+            return False
+        front = nxt
+    return True
+
 
 def is_shuffle(merged, a, b):
     """merged is an order-preserving interleaving of a and b"""
@@ -625,6 +753,8 @@ class Ledger:
 
     def __init__(self, case, no_footprints=False):
         self.case = case
+        self.blind = set()        # sources whose internal queue could not be read (judged by draining at the end)
+        self.raisers = []
         self.no_footprints = no_footprints   # re-judging a case on which model and code disagree: nothing is excused
         self.pend0 = b""
         self.S = bytearray()      # stream bytes in arrival order
@@ -742,6 +872,10 @@ class Ledger:
         reads = [x[1] for x in recs if x[0] == "read"]
         spurious = any(x[0] == "spurious" for x in recs) or self.spur0
         scheduled_seen = self.sched_at_start or any(x[0] == "schedule" for x in recs)
+        if how == "overfull":
+            self.fail("paste event holds %d bytes, more than the %d this script ever delivered (keypresses returned twice)"
+                      % (sum(len(k) for k in r.events if isinstance(k, bytes)), env.total_bytes))
+            return
         # -- what came back
         if how == "returned" and r is not None:
             if isinstance(r, bytes):
@@ -774,32 +908,53 @@ class Ledger:
                 self.sig_out += 1
             else:
                 self.fail("unknown value returned: %r" % (r,))
-        # -- conservation: exactly once, per-source order
+        # -- conservation: exactly once, per-source order.  What the Input still holds is read from its attributes when they
+        #    are there; a source whose queue cannot be read is judged on the returned values alone (no duplicate, no reordering
+        #    now; nothing missing after the drain at the end of the script: Ledger.finish)
         h = env.held()
-        merged = bytes(self.R) + h["u"] + h["o"]
-        if not is_shuffle(merged, bytes(self.S), bytes(self.U)):
-            fp = self.loss_footprint(how, r, recs, h, reads)
-            self.fail("bytes lost, duplicated or reordered (%s): entered %d stream + %d unget bytes, returned %d, still held %d"
-                      % ("request raised %s" % type(r).__name__ if how == "raised" else how, len(self.S), len(self.U),
-                         len(self.R), len(h["u"]) + len(h["o"])), fp)
-            # resynchronise so that one loss is reported once: forget what is gone
-            self.S = bytearray(merged)
-            self.U = bytearray()
-            self.R = bytearray(merged[:len(self.R)])
-        elif how == "raised":
-            # footprint D20: `when` unbound - no scheduled event at the start of the request, one scheduled during it
-            fp = None
-            self.fail("request raised %s: %s (nothing was lost)" % (type(r).__name__, r), fp)
+        if h["u"] is None:
+            self.blind.add("bytes")
+            if not is_shuffle_prefix(bytes(self.R), bytes(self.S), bytes(self.U)):
+                self.fail("keypress bytes duplicated or reordered: %d returned are not a prefix of the %d that arrived"
+                          % (len(self.R), len(self.S) + len(self.U)))
+            if how == "raised":
+                self.raisers.append(r)
+        else:
+            merged = bytes(self.R) + h["u"] + h["o"]
+            if not is_shuffle(merged, bytes(self.S), bytes(self.U)):
+                fp = self.loss_footprint(how, r, recs, h, reads)
+                self.fail("bytes lost, duplicated or reordered (%s): entered %d stream + %d unget bytes, returned %d, still held %d"
+                          % ("request raised %s" % type(r).__name__ if how == "raised" else how, len(self.S), len(self.U),
+                             len(self.R), len(h["u"]) + len(h["o"])), fp)
+                # resynchronise so that one loss is reported once: forget what is gone
+                self.S = bytearray(merged)
+                self.U = bytearray()
+                self.R = bytearray(merged[:len(self.R)])
+            elif how == "raised":
+                self.fail("request raised %s: %s (nothing was lost)" % (type(r).__name__, r), None)
         for k, ids in self.ent.items():
-            heldk = [e.id for e in (h["q"] if k[0] == "q" else h["i"]) if e.kind == k]
-            seen = self.ret.get(k, []) + heldk
+            hq = h["q"] if k[0] == "q" else h["i"]
+            got = self.ret.get(k, [])
+            if hq is None:
+                self.blind.add("events")
+                if got != [e for e in ids if e in got] or len(set(got)) != len(got):
+                    self.fail("events of trigger %s: triggered %r, returned %r (duplicated or out of order)" % (k, ids, got))
+                continue
+            heldk = [e.id for e in hq if e.kind == k]
+            seen = got + heldk
             # a callback still in flight may or may not have appended its event yet; everything else must be there
             expect = [e for e in ids if (k, e) not in self.inflight or e in seen]
             if seen != expect:
-                self.fail("events of trigger %s: triggered %r, returned %r, still queued %r" % (k, ids, self.ret.get(k, []), heldk))
-        if sorted(e.id for _, e in h["s"]) != sorted(s[2] for s in self.pending_sched()):
+                self.fail("events of trigger %s: triggered %r, returned %r, still queued %r" % (k, ids, got, heldk))
+        if h["s"] is None:
+            self.blind.add("scheduled")
+        elif sorted(e.id for _, e in h["s"]) != sorted(s[2] for s in self.pending_sched()):
             self.fail("scheduled events lost or duplicated")
-        if self.sig_out + h["g"] != self.sig_in:
+        if h["g"] is None:
+            self.blind.add("sigints")
+            if self.sig_out > self.sig_in:
+                self.fail("SIGINT events: %d delivered, %d returned" % (self.sig_in, self.sig_out))
+        elif self.sig_out + h["g"] != self.sig_in:
             self.fail("SIGINT events: %d delivered, %d returned, %d held" % (self.sig_in, self.sig_out, h["g"]))
         if how == "livelock":
             self.fail("the request called select more than %d times without returning (a descriptor that is never drained?)" % SELECT_BOUND)
@@ -831,13 +986,63 @@ class Ledger:
         # -- WHICH keypresses a paste holds: nothing can arrive once the first read of a request has happened (the paste loop
         #    never waits), so everything the paste returned plus whatever is still held was available to it as one burst
         if how == "returned" and isinstance(r, cevents.PasteEvent) and all(isinstance(k, bytes) for k in r.events):
-            burst = b"".join(r.events) + h["u"] + h["o"]
+            burst = b"".join(r.events) + (h["u"] or b"") + h["o"]
             ideal = ideal_segments(burst)
             if ideal is not None and list(r.events) != ideal:
                 j = next((x for x in range(min(len(ideal), len(r.events))) if ideal[x] != r.events[x]), min(len(ideal), len(r.events)))
                 self.fail("paste event of a %d-byte burst holds %d keypresses, the burst has %d; first difference at keypress %d "
                           "(byte offset %d): paste %r, burst %r" % (len(burst), len(r.events), len(ideal), j,
                                                                    len(b"".join(ideal[:j])), r.events[j:j + 2], ideal[j:j + 2]))
+
+
+def drain(env, led):
+    """Only when some internal queue could not be read: let everything happen, then ask until nothing comes any more, and
+    judge 'exactly once' on the returned values alone."""
+    if not led.blind:
+        return
+    env.advance(10 ** 6)
+    quiet = 0
+    for _ in range(20000):
+        led.start(env, 0)
+        env.selects = 0
+        try:
+            r = env.inp.send(0)
+        except (Deadlock, Livelock):
+            break
+        except Exception as e:  # noqa: BLE001
+            led.end(env, "raised", e)
+            quiet = 0
+            continue
+        led.end(env, "returned", r)
+        quiet = quiet + 1 if r is None else 0
+        if quiet >= 3:
+            break
+    env.advance(10 ** 6)
+    left = bytes(env.osbuf)
+    if "bytes" in led.blind and not is_shuffle(bytes(led.R) + left, bytes(led.S), bytes(led.U)):
+        # bytes are missing after the drain: excused only by requests that raised inside a known finding's footprint
+        lost_n = len(led.S) + len(led.U) - len(led.R) - len(left)
+        curs = [parse_lost(str(x)) if not isinstance(x, UnicodeDecodeError) else bytes(x.object) for x in led.raisers]
+        kinds = set()
+        for x in led.raisers:
+            if isinstance(x, UnicodeDecodeError):
+                c = bytes(x.object)
+                kinds.add("D12" if len(c) >= 2 and c[:-1] in cevents.KEYMAP_PREFIXES and c[-1] >= 0x80 else
+                          "D35" if c and c[0] >= 0x80 else None)
+            elif str(x).startswith("Couldn't identify key sequence"):
+                kinds.add("D15")
+            else:
+                kinds.add(None)
+        fp = kinds.pop() if (len(kinds) == 1 and lost_n == sum(len(c) for c in curs) and not led.no_footprints) else None
+        led.fail("after draining: %d bytes arrived, %d came back, %d still in the OS buffer" %
+                 (len(led.S) + len(led.U), len(led.R), len(left)), fp)
+    for k, ids in led.ent.items():
+        if "events" in led.blind and led.ret.get(k, []) != [e for e in ids if (k, e) not in led.inflight]:
+            led.fail("after draining: events of trigger %s triggered %r, returned %r" % (k, ids, led.ret.get(k, [])))
+    if "scheduled" in led.blind and led.pending_sched():
+        led.fail("after draining: scheduled events never returned: %r" % ([x[2] for x in led.pending_sched()],))
+    if "sigints" in led.blind and led.sig_out != led.sig_in:
+        led.fail("after draining: %d SIGINT delivered, %d SigIntEvents returned" % (led.sig_in, led.sig_out))
 
 
 def parse_lost(msg):
@@ -854,9 +1059,14 @@ def oracle(c, no_footprints=False):
     led = Ledger(c, no_footprints)
     try:
         env.run(observer=led)
+        drain(env, led)
     finally:
         env.ts_cleanup()
+    UNINSTRUMENTED.update(env.uninstrumented)
     return led.problems + [("environment protocol: " + b, None) for b in env.bad]
+
+
+UNINSTRUMENTED = set()
 
 
 # ------------------------------------------------------------------------------------------------
@@ -1350,19 +1560,42 @@ def mk_cases(ctx):
     return cases
 
 
+def canon_returned(reply):
+    """'<tokens> | u=.. .. c=<clock> a=..' -> (tokens, clock): what the property speaks about"""
+    if " | " not in reply:
+        return reply
+    head, state = reply.split(" | ", 1)
+    f = dict(x.split("=", 1) for x in state.split())
+    return head + " @" + f.get("c", "?")
+
+
+def held_bytes(reply):
+    if " | " not in reply:
+        return None
+    f = dict(x.split("=", 1) for x in reply.split(" | ", 1)[1].split())
+    return None if "?" in (f.get("u"), f.get("o")) else (f.get("u"), f.get("o"))
+
+
 def run_cases(ctx, cases, tie=True):
     install()
     try:
         if tie:
             gk = getkey_cases(ctx)
             ctx.tie("C08/getkey", gk, lambda c: "getkey %s %d" % (hx(c[0]), c[1]), getkey_impl)
-            outs = ctx.tie("C08/insim", cases, line, impl)
+            outs = [impl(c) for c in cases]
+            cache = {id(c): o for c, o in zip(cases, outs)}
+            # property level: the values the requests returned, in order, and when the script ended
+            ctx.tie("C08/insim", cases, line, lambda c: cache[id(c)], canon_returned, canon_returned)
+            # representation level: additionally the Input's internal queues / the fake OS' counters line up with the model
+            ctx.tie("C08/insim-state", cases, line, lambda c: cache[id(c)], level="representation")
             import lib
             try:
                 model = lib.run_driver([line(c) for c in cases])
             except lib.InfraError:
                 model = outs
-            disagree = [m != o for m, o in zip(model, outs)]
+            # a known finding may not excuse a case on which model and code disagree about what was returned or about
+            # which bytes are still held
+            disagree = [canon_returned(m) != canon_returned(o) or held_bytes(m) != held_bytes(o) for m, o in zip(model, outs)]
         else:
             outs = [impl(c) for c in cases]
             disagree = [False] * len(cases)
@@ -1382,6 +1615,8 @@ def run_cases(ctx, cases, tie=True):
 
 def check(ctx):
     run_cases(ctx, mk_cases(ctx))
+    for what in sorted(UNINSTRUMENTED):
+        ctx.note("not instrumented (judged through the values the requests return): " + what)
     real_checks(ctx)        # fakes are uninstalled here: real select / os / time / Nonblocking
     # the witness of the open finding must still fail on the real code (else the finding is stale)
     install()
